@@ -245,6 +245,10 @@ class WebSocket(object):
             log.debug('%r already closed', self)
         else:
             if not self.is_closing:
+                if code is not None and not 0 <= code <= 0xffff:
+                    raise ValueError('close code should be 0..65535')
+                if len(Frame.build_close_payload(code, reason)) > 125:
+                    raise ValueError('close reason should be <= 123 bytes')
                 self._send_close(code, reason)
                 self.state.closing = True
                 self.state.sent_close_time = self.session.session_time
